@@ -840,9 +840,15 @@ Definition step_root_lit (q : quirks) (id : nat) (root : param) (o : op) : param
       end
   end.
 
-(* the whole state: the tree of a DSOLModel, the parent-less objects built so far
-   (in creation order; each is the root of its own tree) and the number of the
-   next operation *)
+(* the whole state: the tree of a DSOLModel, the objects that are in no map - built
+   parent-less and not attached yet, or RETIRED: taken out of their map by
+   remove(), which hands the object back - (each is the root of its own tree,
+   addressed by its identity; in the order they became free) and the number of
+   the next operation.  A retired object can be added again like a parent-less
+   one: add() checks the key, sets the parent and registers (that remove() on
+   HEAD leaves the retired object's _parent attribute pointing at the old map
+   makes no difference to add(); its extended_key() while retired is not
+   observed). *)
 Record state := mkState { st_root : param; st_next : nat; st_free : list param }.
 
 Fixpoint find_free (i : nat) (l : list param) : option param :=
@@ -876,11 +882,13 @@ Definition split_target (o : op) : target * op :=
   match o with OFree j o' => (Some j, o') | _ => (None, o) end.
 
 (* One operation on the forest, over the functions that act on one tree:
-   [tstep] the tree operations, [ctor] the parent-less constructor call,
-   [attach] par.add(t) at a path of the target.  [step] instantiates them with
+   [tstep] the tree operations, [rem] remove (which also hands back the removed
+   object: it becomes a retired, free object), [ctor] the parent-less
+   constructor call, [attach] par.add(t) at a path of the target.  [step] instantiates them with
    the transcription, GenAgree.v with the functions generated from the source. *)
 Definition step_with
     (tstep : nat -> param -> op -> param * out)
+    (rem : param -> string -> res (param * param))
     (ctor : nat -> pspec -> res param)
     (attach : option string -> param -> param -> res param)
     (st : state) (o : op) : state * out :=
@@ -903,6 +911,13 @@ Definition step_with
               end
           end
       | OFree _ _ => same OOutside
+      | ORemove path =>
+          match rem T path with
+          | Raise e => same (ORaise e)
+          | Val (T', x) =>
+              let '(root', free') := set_target root free tg T' in
+              (mkState root' (S n) (free' ++ [x]), OParam (pid x))      (* x is retired, not gone *)
+          end
       | OAttach i dst =>
           match find_free i free with
           | None => same OOutside
@@ -933,7 +948,7 @@ Definition attach_seg (dst : option string) (t T : param) : res param := modify 
 Definition attach_lit (dst : option string) (t T : param) : res param := py_modify_at dst (map_add t) T.
 
 Definition step (q : quirks) : state -> op -> state * out :=
-  step_with (step_root_lit q) (ctor_free q) attach_lit.
+  step_with (step_root_lit q) py_remove (ctor_free q) attach_lit.
 
 Fixpoint run (q : quirks) (st : state) (ops : list op) : state :=
   match ops with
@@ -967,8 +982,8 @@ Definition entry_of (e : string * param) : dump_entry :=
 
 Definition dump_root (root : param) : list dump_entry := map entry_of (ext_keys EmptyString root).
 
-(* the model's tree, then every parent-less object with what hangs below it
-   (their extended keys start at their own key) *)
+(* the model's tree, then every free (parent-less or retired) object with what
+   hangs below it (keys starting at the object's own key) *)
 Definition dump_state (st : state) : list dump_entry :=
   dump_root (st_root st) ++ flat_map dump_root (st_free st).
 
